@@ -21,6 +21,7 @@ import (
 	"strconv"
 	"strings"
 	"sync"
+	"sync/atomic"
 	"time"
 
 	"github.com/IrineSistiana/mosdns/v5/coremain"
@@ -489,6 +490,12 @@ func renderExec(p *progCtx, plugins map[string]any, s, r int, a Act, rng *rand.R
 
 // ---- one evaluation ---------------------------------------------------------------------------
 
+// calls that did not return (each costs 20 s and leaves a goroutine spinning): after a few of them the
+// driver stops early and the check judges what was recorded
+var hangs atomic.Int32
+
+const maxHangs = 3
+
 var progSeq struct {
 	sync.Mutex
 	n int
@@ -576,6 +583,7 @@ func runOne(idx int, b *Beh, variant int, trace bool) (res Result) {
 	select {
 	case out = <-done:
 	case <-time.After(20 * time.Second):
+		hangs.Add(1)
 		return fail("hang", "Sequence.Exec did not return within 20 s", "returns", "still running")
 	}
 	if out.panic != "" {
@@ -603,6 +611,7 @@ func runOne(idx int, b *Beh, variant int, trace bool) (res Result) {
 	// through the same built sequences (another top-level run of the program, an unrelated jump)
 	if d := lateRuns(p, plugins, m, entry, newQ, rng, canonical); d != "" {
 		if d == "hang" {
+			hangs.Add(1)
 			return fail("hang", "a kept continuation did not return within 20 s", "returns", "still running")
 		}
 		return fail("panic", "a kept continuation / interfering run panicked", "no panic", d)
@@ -839,6 +848,9 @@ func main() {
 		go func() {
 			defer wg.Done()
 			for it := range ch {
+				if hangs.Load() >= maxHangs {
+					continue
+				}
 				trace := job.TraceEvery > 0 && it.n%job.TraceEvery == 0
 				vh.Emit(runOne(it.idx, &job.Behaviours[it.idx], it.variant, trace))
 			}
